@@ -174,6 +174,13 @@ pub fn check_in_pos(ctx: &mut Ctx, t: &str, b: &Board, which: u32) {
             if Move::from_uci(&s, b) != Ok(m) {
                 vio(ctx, "Move::from_san", t, &format!("move formats as {:?} which does not read back in {}", s, b.as_fen()));
             }
+            // ... and its SAN form reads back as the same move
+            if let Some(Ok(sm)) = total(ctx, "Move::san", t, || m.san(b)) {
+                let st = sm.to_string();
+                if Move::from_san(&st, b) != Ok(m) {
+                    vio(ctx, "Move::from_san", t, &format!("move formats as SAN {:?} which does not read back in {}", st, b.as_fen()));
+                }
+            }
         }
         let _ = total(ctx, "make::San", t, || make::San(t).make(b).is_ok());
     }
